@@ -7,6 +7,7 @@ let families : (string * (string list -> string)) list = [
   "catalog", Fam_catalog.run;
   "ids", Fam_ids.run;
   "config", Fam_config.run;
+  "tstruct", Fam_tstruct.run;
   "connw", Fam_connw.run;
   "storage", Fam_storage.run;
   "db", Fam_storage.run_db;
